@@ -22,6 +22,10 @@ type ScriptConn struct {
 	Deadlines int
 	Consumed  int
 	WriteErr  error
+	// WriteCut > 0: the next Write hands its bytes to the peer (recorded, OnWrite runs) but reports
+	// that only WriteCut of them went out before the write deadline (a peer that stopped draining
+	// mid-frame, yet saw enough of the header to answer later); reset after one Write
+	WriteCut int
 	BlockFor  time.Duration // > 0: a Read with no data waits up to this long before failing
 	EndReads  int           // consecutive reads answered with the ending error
 	Spun      bool          // the code under test kept reading after the stream had ended (busy loop)
@@ -156,9 +160,14 @@ func (c *ScriptConn) Write(b []byte) (int, error) {
 	c.Written = append(c.Written, cp)
 	c.Trace = append(c.Trace, fmt.Sprintf("w:%d", len(b)))
 	f := c.OnWrite
+	cut := c.WriteCut
+	c.WriteCut = 0
 	c.mu.Unlock()
 	if f != nil {
 		f(cp)
+	}
+	if cut > 0 && cut < len(b) {
+		return cut, os.ErrDeadlineExceeded
 	}
 	return len(b), nil
 }
